@@ -204,7 +204,7 @@ def run(ctx):
     nprng = np.random.default_rng(ctx.seed + 14)
     ctx.rule = ('every public operation (slices, like, time/freq shift, snippet, fast_len, concatenate, (in)coherent dedispersion, chirp, '
                 'stft/istft, polarisation and Stokes conversions, ufuncs without out=, np.asarray, dask helpers, real_to_complex, '
-                'signal_transform) in valid and deliberately invalid forms, on signals of every class whose data are writable NumPy buffers '
+                'signal_transform, reader calls) in valid and deliberately invalid forms, on signals of every class whose data are writable NumPy buffers '
                 'in four layouts (contiguous, strided view of a larger base, Fortran order, offset window of a larger base); the WHOLE base '
                 'buffer is snapshotted; random sequences share inputs and feed results (often views of inputs) back into the pool. '
                 'non-trivial: every call; distinct by (op, class, layout, dtype, shape).')
@@ -280,6 +280,56 @@ def run(ctx):
             if isinstance(res, pb.Signal) and rng.random() < 0.5 and len(res) >= 8 and not isinstance(res.data, da.Array):
                 res._verif_layout = 'derived:' + name
                 pool.append(res)
+
+    # ---- reader calls: arguments (Time / Quantity scalars and arrays) and the files themselves are unchanged, whether the call
+    # returns or raises
+    import glob, hashlib
+    import pulsarbat.readers as pbr
+    DATA = '/repo/tests/data/'
+    files = sorted(glob.glob(DATA + 'fake.*.raw')) + [DATA + 'sample.dada', DATA + 'sample.vdif', DATA + 'stokes_ef.dada']
+    fhash = {f: hashlib.sha256(open(f, 'rb').read()).hexdigest() for f in files}
+    lsb_arr = (np.arange(8) % 3).astype(bool)
+    mk = [('dada', lambda: pbr.BasebandReader(DATA + 'sample.dada')), ('dada_lsb', lambda: pbr.BasebandReader(DATA + 'sample.dada', lower_sideband=True)),
+          ('vdif', lambda: pbr.BasebandReader(DATA + 'sample.vdif')), ('vdif_mixed', lambda: pbr.BasebandReader(DATA + 'sample.vdif', lower_sideband=lsb_arr)),
+          ('guppi', lambda: pbr.GUPPIRawReader(sorted(glob.glob(DATA + 'fake.*.raw')))), ('stokes', lambda: pbr.DADAStokesReader(DATA + 'stokes_ef.dada'))]
+    for nm, f in mk:
+        try:
+            r = f()
+        except Exception as e:
+            ctx.fail('reader_open_raised', dict(reader=nm), impl=repr(e))
+            continue
+        L = len(r)
+        for k in range(12 if ctx.tier == 'quick' else 120):
+            o = rng.randint(0, max(0, L - 40))
+            n = rng.choice([0, 1, 7, 16, 33])
+            tq = (np.array([o, o + 1.25, L + 3.0]) / r.sample_rate).to(u.us)
+            tt = r.start_time + tq
+            t1 = r.start_time + (o / r.sample_rate)
+            q1 = (o / r.sample_rate).to(u.ms)
+            calls = [('read', lambda: r.read(o, n), []), ('read_beyond', lambda: r.read(L - 1, 5), []), ('read_negative', lambda: r.read(-1, 2), []),
+                     ('dask_read', lambda: r.dask_read(o, n).compute(), []), ('offset_at_time', lambda: r.offset_at(t1), [t1]),
+                     ('offset_at_quantity', lambda: r.offset_at(q1), [q1]), ('offset_at_outside', lambda: r.offset_at(tq[2]), [tq]),
+                     ('time_at', lambda: (r.time_at(o), r.time_at(o, unit=u.ms)), []), ('contains_array', lambda: r.contains(tt), [tt]),
+                     ('contains_scalar', lambda: t1 in r, [t1]), ('repr', lambda: (repr(r), str(r), len(r), r.shape), [])]
+            if nm == 'vdif_mixed':
+                calls.append(('read_mixed_sideband', lambda: r.read(o, n), [lsb_arr]))
+            name, thunk, extra = rng.choice(calls)
+            before = [snap_any(x) for x in extra]
+            inp = dict(op='reader:' + name, reader=nm, offset=o, n=n)
+            ctx.seen(inp); ctx.count('op:reader:' + name)
+            err = None
+            try:
+                thunk()
+                ctx.count('returned')
+            except Exception as e:
+                err = e
+                ctx.count('raised:' + type(e).__name__)
+            changed = [f'argument {j} ({type(x).__name__})' for j, x in enumerate(extra) if snap_any(x) != before[j]]
+            if changed:
+                ctx.fail('input_modified', inp, impl=dict(changed=changed, raised=repr(err) if err else None))
+    for f_ in files:
+        if hashlib.sha256(open(f_, 'rb').read()).hexdigest() != fhash[f_]:
+            ctx.fail('input_modified', dict(op='reader', file=f_), impl='file bytes changed')
 
 
 def describe_change(z, before):
